@@ -246,8 +246,25 @@ def run(R):
                 t = g.blocks[sw]["term"]
                 if t["k"] == "switch" and t["discr"]["k"] in ("copy", "move") and t["discr"]["pl"]["l"] == l and not t["discr"]["pl"]["p"]:
                     trsw.append(sw)
+        # ... or tested through a copy of it (`if let (true, Value::String(s)) = (column.options.trim, &mut value)`, `let t = o.trim; if t`)
+        true_edges = []
+        for sw in sorted(g.reach):
+            info = F.switch_info(g, sw)
+            if not info or info[0] != "bool" or sw in trsw:
+                continue
+            for lab, tgt in info[2].items():
+                pos, os_ = F.bool_edge_polarity(g, sw, lab)
+                seen_pl = []
+                for o in (os_ or []):
+                    if o.place is not None and isinstance(o.place, dict) and "p" in o.place:
+                        seen_pl.append(o.place)
+                F.origins(g, info[1], depth=8, through_calls=False, visit=seen_pl.append)
+                if pos and any("trim" in place_fields(pl) for pl in seen_pl) and \
+                        not any(o.kind in ("binop", "unop") for o in F.origins(g, info[1], depth=8, through_calls=False)):
+                    true_edges.append((sw, tgt))
         for c in tr:
-            under = any(PR.dominated_by_edge(g, c.bb, sw, g.blocks[sw]["term"]["otherwise"]) for sw in trsw)
+            under = any(PR.dominated_by_edge(g, c.bb, sw, g.blocks[sw]["term"]["otherwise"]) for sw in trsw) or \
+                any(PR.dominated_by_edge(g, c.bb, sw, tgt) for sw, tgt in true_edges)
             trim_ok = (trim_ok is not False) and under
             if not under:
                 R.violation("C01.options", "trim->str::trim", "%s calls str::trim outside the TRIM option's branch: values of columns without TRIM "
